@@ -33,11 +33,12 @@ type fwCase struct {
 	Offset   uint32 `json:"offset"`
 	Sections uint32 `json:"sections"`
 	Length   uint32 `json:"length"`
-	// tdxregion
-	SecType uint32 `json:"sectype"`
-	MemSize uint64 `json:"memsize"`
-	MemBase uint64 `json:"membase,omitempty"` // 0: keep the example's base
-	Attr    uint32 `json:"attr,omitempty"`    // section attributes (bit 0: extend)
+	// tdxregion (DefaultOnly: only the entry points of the default launch mode are run)
+	DefaultOnly bool   `json:"default_only,omitempty"`
+	SecType     uint32 `json:"sectype"`
+	MemSize     uint64 `json:"memsize"`
+	MemBase     uint64 `json:"membase,omitempty"` // 0: keep the example's base
+	Attr        uint32 `json:"attr,omitempty"`    // section attributes (bit 0: extend)
 	// truncate / mutate
 	Size int    `json:"size"` // base image size
 	Cut  int    `json:"cut"`
@@ -217,6 +218,16 @@ func runFw(raw json.RawMessage) error {
 	banks := tdx.LaunchOptionsDefaultTDHOBBug(shape).GuestRAMBanks
 	_, err = tdx.MRTD(tdx.LaunchOptionsDefault(""), img)
 	note("MRTD(default)", err)
+	if c.DefaultOnly {
+		_, err = tdx.UnsignedTDX(img, &tdx.EndorsementRequest{})
+		note("UnsignedTDX(default)", err)
+		_, err = ovmf.ExtractMaterialGuestPhysicalRegions(img)
+		note("ExtractMaterialGuestPhysicalRegions", err)
+		if len(errs) > 0 {
+			return fmt.Errorf("rejected by: %s", strings.Join(errs, ","))
+		}
+		return nil
+	}
 	_, err = tdx.MRTD(&tdx.LaunchOptions{GuestRAMBanks: banks, MeasureAllRegions: true}, img)
 	note("MRTD(measure-all)", err)
 	_, err = tdx.MRTD(&tdx.LaunchOptions{GuestRAMBanks: banks, MeasureAllRegions: true, DisableUnacceptedMemory: true}, img)
@@ -470,6 +481,14 @@ func RunC08(run *vk.Run) {
 	for sz := uint64(0x60); sz <= 0x400; sz += 4 {
 		add(fwCase{Kind: "tdxregion", SecType: 2, MemSize: sz, Key: "tdxregion type2 small hand-off block"})
 	}
+	// the default launch mode alone (the legacy modes allocate every declared region: listed findings): a
+	// TempMem section flagged for extension that declares more memory than the image has bytes has no
+	// contents to extend with -- refused at once, whatever size it declares
+	for _, sz := range []uint64{256 << 20, 1 << 31, 1 << 40, 1 << 48, 1 << 62, 1 << 63} {
+		for _, attr := range []uint32{1, 3} {
+			add(fwCase{Kind: "tdxregion", SecType: 3, MemSize: sz, MemBase: 1 << 32, Attr: attr, DefaultOnly: true, Key: fmt.Sprintf("tdxregion type3 flagged for extension (attr %#x), %#x bytes, default mode only", attr, sz)})
+		}
+	}
 	// every launch option: products the enumeration knows and values it does not
 	for _, p := range []int32{0, 1, 2, 3, 4, 5, 100, 1 << 30, -1} {
 		add(fwCase{Kind: "product", Product: p, Key: fmt.Sprintf("product=%d", p)})
@@ -501,7 +520,9 @@ func RunC08(run *vk.Run) {
 		size := len(buildFw(c))
 		rep := map[string]any{"case": c, "status": cr.Status, "detail": cr.Detail, "alloc": cr.Alloc, "seconds": cr.Dur.Seconds()}
 		key := c.Kind
-		if c.Kind == "tdxregion" && c.MemSize <= uint64(size) {
+		if c.Kind == "tdxregion" && c.DefaultOnly {
+			key = fmt.Sprintf("tdxregion-default-mode-extend:type%d", c.SecType)
+		} else if c.Kind == "tdxregion" && c.MemSize <= uint64(size) {
 			// a region no larger than the image is another input class than the oversized regions of the
 			// listed findings
 			key = fmt.Sprintf("tdxregion-within-image:type%d", c.SecType)
